@@ -5,3 +5,4 @@ import MF.Model.Token
 import MF.Model.Lexer
 import MF.Model.File
 import MF.Model.Split
+import MF.Model.Quote
